@@ -29,6 +29,8 @@
         compact aggregator restarted from an older file)
    L    `load_any_cut` (+ `load_strict_prefix_lv`, `load_err_iff_tail`): reload of a saved file cut anywhere, also exactly
         at a chunk boundary where no read error occurs: Faithful, and the header's loaderVersion is not believed
+   N    `two_hop_converges_compact_no_rollback` (compact aggregator, never restarted: both hops composed); the statement
+        with aggregator roll-backs under a no-return hypothesis is kept as a comment (not proved)
    M    the compact form is MODELLED (SH.Model.CompactMetric = MakeCompactMetric + keepCompactMetricDescription + the event
         head): `compactForm_idem`, `compactForm_desc`, `compactForm_desc_special`, `compactForm_ignores`,
         `converges_modelled_compact`; the seeded "name cleared first" variant loses remote-config payloads (`decide`)
@@ -1489,5 +1491,72 @@ theorem converges_modelled_compact (tab : Nat → Content) (hT : TabOK tab true)
   obtain ⟨r, hr, hk, hrk, _⟩ := (converges tab true hT ops w h).2.2 hs |>.1 u hu f hf
   exact ⟨r, hr, hk, by rw [hrk]; exact hcf u.k f hf⟩
 
+
+/-! ## N. two hops with a compact aggregator -/
+
+/-- C20 (two hops, COMPACT aggregator allowed, aggregator never rolled back). Source S → aggregator A (kind `cA`) → agent G
+    (kind `cG`). Every schedule of source edits, limited / cut deliveries on both hops, saves of both, restarts of the AGENT
+    from an old or truncated file — but no restart of the aggregator. Whenever the aggregator has caught up with the source
+    and the agent with the aggregator, the agent holds exactly the source's non-discarded entities, each in the doubly
+    stored form `storedAs cG (storedAs cA ·)` of the source's latest version, and nothing else. -/
+theorem two_hop_converges_compact_no_rollback (tab : Nat → Content) (cA cG : Bool) (hA : TabOK tab cA) (hG : TabOK tab cG)
+    (ops : List Op2) (hno : NoRestartA ops) (w : W2)
+    (h : run2 tab { A := { compact := cA }, G := { compact := cG } } ops = some w)
+    (s1 : w.S.cur ≤ w.A.lv) (s2 : w.A.cur ≤ w.G.lv) :
+    (∀ s ∈ w.S.entries, ∀ f1 f2, storedAs tab cA s.k = some f1 → storedAs tab cG f1 = some f2 →
+        ∃ g ∈ w.G.entries, sameKey g s = true ∧ g.k = f2) ∧
+    (∀ g ∈ w.G.entries, ∃ s ∈ w.S.entries, sameKey g s = true ∧
+        ∃ f1, storedAs tab cA s.k = some f1 ∧ storedAs tab cG f1 = some g.k) := by
+  have init : Inv2C tab { A := { compact := cA }, G := { compact := cG } } :=
+    ⟨winv_init tab cA, jx_empty cG, conv_empty tab cG _ (jx_empty cA) (by intro e he; simp at he),
+     fileok_empty tab cG _ (jx_empty cA) (by intro e he; simp at he)⟩
+  obtain ⟨hi, cA', cG'⟩ := run2c_inv tab ops _ w hA hG hno init h
+  simp only at cA' cG'
+  obtain ⟨a1, b1⟩ := synced_contents tab w.A w.S hi.hop1.conv hi.hop1.jR hi.hop1.jU s1
+  obtain ⟨a2, b2⟩ := synced_contents tab w.G w.A hi.conv2 hi.jG hi.hop1.jR s2
+  rw [cA'] at a1 b1
+  rw [cG'] at a2 b2
+  refine ⟨?_, ?_⟩
+  · intro s hs f1 f2 h1 h2
+    obtain ⟨a, ha, ka, hak, _⟩ := a1 s hs f1 h1
+    obtain ⟨g, hg, kg, hgk, _⟩ := a2 a ha f2 (by rw [hak]; exact h2)
+    exact ⟨g, hg, sameKey_trans _ _ _ kg ka, hgk⟩
+  · intro g hg
+    obtain ⟨a, ha, kg, hga⟩ := b2 g hg
+    obtain ⟨s, hs, ka, has⟩ := b1 a ha
+    exact ⟨s, hs, sameKey_trans _ _ _ kg ka, a.k, has, hga⟩
+
+/-- non-vacuity: the finding's schedule WITHOUT the aggregator restart, compact aggregator: the agent ends with the
+    compact form 10 of X@3 (and the hypothesis `NoRestartA` holds) -/
+example : NoRestartA (rollbackOps.filter (fun o => o ≠ .restartA 100000)) := by
+  intro op hop k heq
+  subst heq
+  simp [rollbackOps] at hop
+example : ∃ w, run2 tabK { A := { compact := true } } (rollbackOps.filter (fun o => o ≠ .restartA 100000)) = some w ∧
+    w.S.cur ≤ w.A.lv ∧ w.A.cur ≤ w.G.lv ∧ w.G.entries.map (fun e => (e.ver, e.k)) = [(3, 10), (4, 13)] :=
+  ⟨_, rfl, by decide, by decide, by decide⟩
+
+/-
+  NOT PROVED (kept as the statement of the remaining partial; `two_hop_converges_compact_no_rollback` above is the part
+  of it that is proved, `two_hop_converges_no_skip` covers roll-backs for skip-free chains, and
+  `two_hop_compact_rollback_counterexample` shows the hypothesis `NoReturn` cannot be dropped):
+
+    /-- an entity's stored (compact) form never returns to an earlier value: for source versions h1 < h2 < h3 of one
+        entity, storedAs cA h1.k = storedAs cA h3.k → storedAs cA h2.k = storedAs cA h1.k -/
+    def NoReturn (tab) (cA) (H : List Entry) : Prop := …
+
+    theorem two_hop_converges_compact_no_return (tab) (cA cG) (hA : TabOK tab cA) (hG : TabOK tab cG)
+        (ops : List Op2)                       -- restarts of the aggregator from old / truncated files INCLUDED
+        (w : W2) (h : run2 tab { A := { compact := cA }, G := { compact := cG } } ops = some w)
+        (hnr : NoReturn tab cA (history of w.S))
+        (s1 : w.S.cur ≤ w.A.lv) (s2 : w.A.cur ≤ w.G.lv) :
+        (same conclusion as two_hop_converges_compact_no_rollback)
+
+  Missing: the run-compressed invariant relative to the source — "an entry (v, f) of a journal at depth d stands for a run
+  of source versions [v, v'] of its entity whose stored forms all equal f, v' being the entity's latest version not above
+  the journal's loaderVersion" — and its preservation by `applyUpdate`'s skip (extends the run), by a restart of the
+  aggregator (shrinks loaderVersion; under NoReturn a stale entry that is skipped later still covers the whole run) and by
+  deliveries to an agent that is ahead of the aggregator. Not attempted inside the last 45-minute box.
+-/
 
 end SH.C20
